@@ -341,6 +341,22 @@ def run_check(tier, seed):
         if c < 0.95:
             return Eq(nnf_form(k - 1), nnf_form(k - 1))
         return kterm.Implies(nnf_form(k - 1), nnf_form(k - 1))
+    def to_form(t):
+        """The propositional skeleton nnf_conv works on (Nnf.form); everything else is an atom."""
+        if t == kterm.true:
+            return 'FTrue'
+        if t == kterm.false:
+            return 'FFalse'
+        if t.is_not():
+            return '(FNot %s)' % to_form(t.arg)
+        if t.is_conj():
+            return '(FAnd %s %s)' % (to_form(t.arg1), to_form(t.arg))
+        if t.is_disj():
+            return '(FOr %s %s)' % (to_form(t.arg1), to_form(t.arg))
+        if t.is_equals() and t.lhs.get_type() == B:
+            return '(FIff %s %s)' % (to_form(t.lhs), to_form(t.rhs))
+        return '(FAtom %s)' % g_tm(t)
+    nnf_exprs, nnf_meta = [], []
     for i in range(60 * scale):
         t = nnf_form(r.choice([2, 3, 4]))
         if r.random() < 0.5:
@@ -349,6 +365,8 @@ def run_check(tier, seed):
         run.count(('nnf', g_tm(t)), nontrivial=pt is not None and pt.rhs != t)
         if pt is None:
             continue
+        nnf_exprs.append('case_nnf %s %s' % (to_form(t), to_form(pt.rhs)))
+        nnf_meta.append((t, pt.rhs))
         if not is_nnf(pt.rhs):
             run.violation('property', 'nnf_conv returns %s for %s, which is not in negation normal form' % (sstr(pt.rhs), sstr(t)),
                           dict(term=repr(t), result=repr(pt.rhs), printed=sstr(pt.rhs)), key='C10:nnf_conv:normal-form')
@@ -356,6 +374,17 @@ def run_check(tier, seed):
         if pt2 is not None and pt2.rhs != pt.rhs:
             run.violation('property', 'nnf_conv is not idempotent: %s normalises further to %s' % (sstr(pt.rhs), sstr(pt2.rhs)),
                           dict(term=repr(t), nf=repr(pt.rhs), again=repr(pt2.rhs)), key='C10:nnf_conv:idempotent')
+
+    # model correspondence: nnf_conv against Nnf.nnf (for which meaning, normality and idempotence are proved)
+    ncodes = coq_eval_nats(run.wd, 'Kernel Nnf', nnf_exprs, tag='nnf', shard=200)
+    ndis = 0
+    for (t, rhs), code in zip(nnf_meta, ncodes):
+        if code != 1:
+            ndis += 1
+            if ndis <= 4:
+                run.violation('correspondence', 'correspondence:C10/nnf: nnf_conv and the model Nnf.nnf differ on %s' % sstr(t),
+                              dict(correspondence='C10/nnf', term=repr(t), impl=sstr(rhs)), failing_input=False)
+    run.cov['correspondence_nnf'] = dict(cases=len(nnf_exprs), disagree=ndis)
 
     # ================= (3) arithmetic normalisers ===============================
     for thy, T, mod, mk in (('nat', N, dnat, lambda: dnat.norm_full()), ('int', I, dint, lambda: dint.int_norm_conv()),
